@@ -299,6 +299,7 @@ type Report struct {
 	Assumptions  []string
 	Exhaustive   bool
 	counters     map[string]int
+	sampleKeys   map[string]bool
 }
 
 func NewReport(prop, tier, level string) *Report {
@@ -368,10 +369,23 @@ func (r *Report) Counter(k string) int {
 
 func (r *Report) Sample(s any) {
 	r.mu.Lock()
-	if len(r.Samples) < 6 {
-		r.Samples = append(r.Samples, s)
+	defer r.mu.Unlock()
+	if len(r.Samples) >= 6 {
+		return
 	}
-	r.mu.Unlock()
+	b, _ := json.Marshal(s)
+	k := string(b)
+	if len(k) > 160 {
+		k = k[:160] // near-duplicates (same case, other nonce) are not informative
+	}
+	if r.sampleKeys == nil {
+		r.sampleKeys = map[string]bool{}
+	}
+	if r.sampleKeys[k] {
+		return
+	}
+	r.sampleKeys[k] = true
+	r.Samples = append(r.Samples, s)
 }
 
 // Finish prints verdict lines, writes evidence and replays, and exits.
